@@ -381,3 +381,13 @@ func (k *K) dcPos(root *FnInfo, dc DeepCall) string {
 	}
 	return root.InstrPos(dc.Outer)
 }
+
+// keysOf returns the sorted keys of a string set.
+func keysOf(m map[string]bool) []string {
+	var out []string
+	for k := range m {
+		out = append(out, k)
+	}
+	sort.Strings(out)
+	return out
+}
